@@ -89,6 +89,7 @@ def run(F, R, tier, cfg):
     PN.check_entries(F, R, "C15", ents, cfg, classes=classes)
     strip_rule(F, R)
     split_both_rule(F, R, set(F.reachable(ents)))
+    split_exhaust_rule(F, R, set(F.reachable(ents)))
 
 
 def strip_rule(F, R):
@@ -237,3 +238,46 @@ def split_both_rule(F, R, fns):
                 R.violation("SPLIT-both", "%s/%s" % (p, c.decl.split("::")[-1]), "%s cuts its input with %s but never reads half %s: that part of the "
                             "input is accepted without being examined (garbage silently dropped)" % (short(p), c.decl.split("::")[-1], sorted({"0", "1"} - used[c.bb])), c.span.loc)
     R.floor("SPLIT-both", n, 3, "split_once/rsplit_once calls in the text parsers (ServiceAddr, IsdAsn, parse_socket_addr, parse_txt_payload)")
+
+
+SPLIT_ITERS = re.compile(r"<impl str>::(split|rsplit|splitn|rsplitn|split_terminator|rsplit_terminator|split_whitespace|split_inclusive|split_ascii_whitespace)$")
+WHOLE = re.compile(r"::(try_fold|fold|collect|count|last|for_each|try_for_each|all|any|into_iter|map|filter|enumerate|zip|rev|sum|max|min|eq|cmp)$")
+
+
+def split_exhaust_rule(F, R, fns):
+    """SPLIT-exhaust: "a string is accepted only if it is the displayed form of some value": a parser that takes fields off a
+    split iterator with explicit next() calls must account for everything after the last field it takes — `splitn(k, ..)`
+    with exactly k next() calls (the k-th field then carries the whole remainder and is parsed), or the iterator is consumed
+    as a whole (fold/collect/loop).  An unbounded `split` read with two next() calls accepts and ignores any further fields."""
+    n = 0
+    for p in sorted(fns):
+        b = F.body(p)
+        if b is None or T.is_test_support(p):
+            continue
+        for c in b.calls:
+            if c.indirect or not SPLIT_ITERS.search(c.decl) or c.bb not in b.live_blocks():
+                continue
+            uses = [cc for cc in b.calls if not cc.indirect and cc is not c and cc.args and cc.bb in b.live_blocks()
+                    and any(x[0] == "call" and len(x) > 5 and x[5] == c.bb for x in walk(PN._peel_refs(b.origin(cc.args[0]))) if True)
+                    and PN._peel_refs(strip_sites(b.origin(cc.args[0])))[0] == "call" and PN._peel_refs(strip_sites(b.origin(cc.args[0])))[1] == c.decl]
+            nexts = [cc for cc in uses if cc.decl.endswith("Iterator::next")]
+            whole = [cc for cc in uses if WHOLE.search(cc.decl)]
+            if not nexts and not whole:
+                continue
+            n += 1
+            R.fn(p)
+            kind = c.decl.split("::")[-1]
+            ok, why = False, ""
+            if whole and not nexts:
+                ok, why = True, "consumed as a whole (%s)" % sorted({cc.decl.split("::")[-1] for cc in whole})
+            elif kind in ("splitn", "rsplitn"):
+                k = PN.const_eval(PN.strip_casts(strip_sites(b.origin(c.args[1]))))
+                ok = k is not None and len(nexts) == k
+                why = "%s(%s) read with %d next() call(s)" % (kind, k, len(nexts))
+            else:
+                why = "unbounded %s read with %d next() call(s) and no whole-iterator consumer" % (kind, len(nexts))
+            R.ob("SPLIT-exhaust", "%s: %s" % (short(p), why), ok, True, {"rule": "SPLIT-exhaust", "fn": p, "loc": c.span.loc, "detail": why, "holds": ok})
+            if not ok:
+                R.violation("SPLIT-exhaust", "%s/%s" % (p, kind), "%s takes fields off a split iterator without accounting for the rest (%s): trailing fields of the "
+                            "input are accepted and ignored" % (short(p), why), c.span.loc)
+    R.floor("SPLIT-exhaust", n, 2, "split iterators in the text parsers (Asn::from_str, parse_scion_addr)")
